@@ -117,3 +117,10 @@ add('C15', 'Hypothesis-generated meshes, constants, Newmark parameters, initial 
     'range, with and without essential BCs, orders 1-2, linear elastic and neo-Hookean. Sampling.',
     'The minimiser of the algorithmic energy is computed by the checker (dense Newton), independent of the trust-region solver; cases where Newton does not reach 1e-10 are inconclusive; '
     'tolerances include the rounding of the acceleration as a difference of displacements.')
+add('C07', 'Hypothesis-generated parameterised energies, cotangents and multi-step pullback orders; preset distorted meshes with generated displacements / states / cotangents; differential oracle against dense implicit-function-theorem derivatives and dense forward-mode Jacobians',
+    'Generated search: jax.vjp through nonlinear_solve (design slot) and nonlinear_solve_with_state (bc, state, design, time slots) against -(dg/dp)^T H^-1 v assembled with dense jacfwd and numpy solve, '
+    'with the pullbacks of several load steps applied after all forward solves on one objective; every MechanicsInverse helper VJP (state update w.r.t. previous state / displacement / coordinates, residual '
+    'w.r.t. previous state / coordinates) against the transposed action of dense forward-mode Jacobians for neo-Hookean, J2 and viscoelastic (dt > 0) models; construct_function_space_for_adjoint against direct '
+    'construction on the moved mesh (orders 1-3, both 2D modes). Sampling.',
+    'Adjoint CG tolerance max(cg_tol, 1e-5|v|) propagated through |H^-1||dg/dp|; helper meshes are a few preset distorted meshes per model so that compiled helpers can be reused (displacements, states, '
+    'cotangents and time steps are generated); products below 1e-6*stiffness/h^2 are treated as rounding noise.')
